@@ -115,6 +115,7 @@ class Kernel(object):
         self.single_preempt_at = None     # force exactly one preemption at this line-event index
         self.sleep_interrupt = None       # callable(task, caller module name) -> exception to raise out of time.sleep() or None
         self.line_hot = None              # {function name: pre-emption probability per line} overriding the default
+        self.handoff = None               # directed two-point schedule, see set_handoff()
         self.time = SimTime(self)
         CURRENT[0] = self
 
@@ -190,6 +191,9 @@ class Kernel(object):
         t = self.cur()
         if t is None:
             raise HarnessError("blocking primitive %s used outside a kernel task" % what)
+        h = self.handoff
+        if h is not None and t is h["victim"] and h["vfirst"] is None and what != "handoff-parked":
+            h["vfirst"] = h["vcount"]      # line events of the victim before its call blocked for the first time
         t.state = BLOCKED
         t.wait_on = what
         t.wake_reason = None
@@ -201,6 +205,46 @@ class Kernel(object):
             heapq.heappush(self.timers, (self.now_ns + ns, self._seq, t.id, t.timer_token))
         self._switch(t)
         return t.wake_reason
+
+    # ---- directed two-point schedules ("handoff") ----------------------------------------------------------
+    def set_handoff(self, park_at, release_at, trigger_fns):
+        """One victim task is descheduled at its park_at-th line event after handoff_arm() and gets the processor back
+        (and keeps it until it blocks) when the trigger task has executed release_at line events inside the functions
+        named in trigger_fns.  With park_at None nothing is parked: the run only counts (dry run).  A victim that is
+        still parked when nothing else can run, or when handoff_finish() is called, simply goes on: every such run is
+        an ordinary schedule of the real threads, only chosen on purpose instead of at random."""
+        self.handoff = {"park_at": park_at, "release_at": release_at, "fns": frozenset(trigger_fns), "victim": None,
+                        "trigger": None, "vcount": 0, "tcount": 0, "state": 0, "vfirst": None, "released_by": None}
+
+    def handoff_arm(self, victim=None):
+        h = self.handoff
+        if h is not None and h["victim"] is None:
+            h["victim"] = victim or self.cur()
+
+    def handoff_finish(self):
+        h = self.handoff
+        if h is not None and h["state"] == 1:
+            h["state"] = 2
+            h["released_by"] = "finish"
+            self._wake(h["victim"], "handoff")
+
+    def _handoff_line(self, t, code):
+        h = self.handoff
+        if t is h["victim"]:
+            h["vcount"] += 1
+            if h["state"] == 0 and h["park_at"] is not None and h["vcount"] == h["park_at"]:
+                h["state"] = 1
+                self.preemptions += 1
+                self.block("handoff-parked")
+        elif t is h["trigger"] and code.co_name in h["fns"]:
+            h["tcount"] += 1
+            if h["state"] == 1 and h["tcount"] >= h["release_at"]:
+                h["state"] = 2
+                h["released_by"] = "trigger"
+                self.preemptions += 1
+                self._wake(h["victim"], "handoff")
+                self._force = h["victim"]
+                self._switch(t)
 
     def kill_node(self, node):
         """crash: all tasks of the node die at their next scheduling point"""
@@ -220,6 +264,16 @@ class Kernel(object):
             if all(t.state == DONE for t in watch):
                 break
             runnable = [t for t in self.tasks if t.state == RUNNABLE]
+            h = self.handoff
+            if h is not None and h["state"] == 1 and h["trigger"] is not None and (
+                    h["trigger"].state == DONE or (h["trigger"].state == BLOCKED and h["trigger"].wait_on in (
+                        "Lock", "RLock", "RLock(reacquire)"))):
+                # the trigger thread waits for a lock (which the parked thread may hold) or has ended: go on
+                h["state"] = 2
+                h["released_by"] = "lock" if h["trigger"].state == BLOCKED else "done"
+                self._wake(h["victim"], "handoff")
+                self._force = h["victim"]
+                continue
             if not runnable:
                 fired = False
                 while self.timers:
@@ -236,6 +290,13 @@ class Kernel(object):
                     if self.now_ns > self.max_sim_ns:
                         raise BudgetExceeded("simulated time budget exceeded")
                     continue
+                h = self.handoff
+                if h is not None and h["state"] == 1:
+                    # everybody else waits for something the parked thread holds: it gets the processor back
+                    h["state"] = 2
+                    h["released_by"] = "idle"
+                    self._wake(h["victim"], "handoff")
+                    continue
                 blocked = ["%s blocked on %s at %s" % (t.name, t.wait_on, t.where())
                            for t in self.tasks if t.state == BLOCKED]
                 raise Deadlock(blocked)
@@ -243,7 +304,11 @@ class Kernel(object):
             self._exclude = None
             if ex is not None and len(runnable) > 1 and ex in runnable:
                 runnable.remove(ex)
-            if len(runnable) > 1:
+            force = getattr(self, "_force", None)
+            self._force = None
+            if force is not None and force in runnable:
+                nxt = force
+            elif len(runnable) > 1:
                 if self.current in runnable:
                     runnable.remove(self.current)
                     runnable.insert(0, self.current)
@@ -334,6 +399,9 @@ class Kernel(object):
         self.line_events += 1
         if self.line_budget is not None and self.line_events > self.line_budget:
             raise BudgetExceeded("line event budget exceeded")
+        if self.handoff is not None:
+            self._handoff_line(t, code)
+            return
         if self.single_preempt_at is not None:
             if self.line_events == self.single_preempt_at:
                 self.preemptions += 1
